@@ -36,6 +36,10 @@ fn is_space(c: char) -> bool {
 }
 
 pub fn gen_feature(rng: &mut Rng, tag: &str, i: usize) -> String {
+    // (features are kept verbatim: blanks at the end, as in the row of the full-width space of IPADIC, included)
+    if rng.chance(0.08) {
+        return format!("{tag}{i},記号,空白,{}", ["\u{3000}", " ", "x ", "\u{3000}\u{3000}"][rng.below(4)]);
+    }
     match rng.below(6) {
         0 => format!("{tag}{i}"),
         1 => format!("{tag}{i},名詞,*"),
